@@ -31,6 +31,11 @@ def gen(ctx):
     cs += runs.generate(ctx, "rvi", max(3, n // 4), init="random")
     cs += runs.generate(ctx, "rvi", max(3, n // 4), accept=conv, ks=[40], init="random", family="unichain")
     cs += directed_cases(ctx, 3 if quick else 20)
+    # histories of several solve() calls: the early calls stop at their limit, a later one reports convergence
+    # (and the greedy policy still changes between the first call and the converged one, so a stale policy would show)
+    last_conv = lambda c, r: r[-1]["converged"] and not any(x["converged"] for x in r[:-1]) and r[0]["policy"] != r[-1]["policy"]  # noqa: E731
+    for ks in ([1, 40], [2, 1, 40]):
+        cs += runs.generate(ctx, "rvi", max(2, n // 6), accept=last_conv, max_tries=600, ks=ks, eps=None, init="random")
     return cs
 
 
